@@ -145,7 +145,12 @@ func genFaultRead(r *rand.Rand, i int) Scenario {
 		if k == 0 {
 			v = Pair{"body", B([]byte("common"))}
 		}
-		sc.Ops = append(sc.Ops, Op{Op: "pl_open", Seg: seg, Field: v.Field, Term: v.Term, Pl: 700 + k},
+		po := Op{Op: "pl_open", Seg: seg, Field: v.Field, Term: v.Term, Pl: 700 + k}
+		if r.Intn(2) == 0 {
+			// deletions: the iterator walks two bitmaps in lock step
+			po.Except = &DropSpec{Kind: "set", Docs: keys(subset(r, len(b1), 0.3))}
+		}
+		sc.Ops = append(sc.Ops, po,
 			Op{Op: "it_open", Pl: 700 + k, It: 720 + k, Freq: true, Norm: true, Locs: r.Intn(2) == 0})
 		for j := 0; j < r.Intn(3); j++ {
 			sc.Ops = append(sc.Ops, Op{Op: "it_next", It: 720 + k})
@@ -161,9 +166,14 @@ func genFaultRead(r *rand.Rand, i int) Scenario {
 	} else {
 		sc.Ops = append(sc.Ops, Op{Op: "close_file", Seg: seg})
 	}
+	// a caller that keeps calling after an error: more calls than the list has postings
 	for k := 0; k < npers; k++ {
-		for j := 0; j < len(b1)+1; j++ {
-			sc.Ops = append(sc.Ops, Op{Op: "it_next", It: 720 + k})
+		for j := 0; j < 2*len(b1)+3; j++ {
+			if j%5 == 4 {
+				sc.Ops = append(sc.Ops, Op{Op: "it_adv", It: 720 + k, D: j / 2})
+			} else {
+				sc.Ops = append(sc.Ops, Op{Op: "it_next", It: 720 + k})
+			}
 		}
 	}
 	for d := 0; d < len(b1); d++ {
